@@ -180,3 +180,46 @@ fn c06_x_expand_wildcard_leaf() {
     vcover!(got0 && got1);
     vcover!(!got0 && !got1);
 }
+
+/// The one-entry "last authorised" cache as an inductive step (two consecutive `next()` calls on
+/// a repeated path did not finish in 600 s): ONE `next()` on a concrete path P from an ARBITRARY
+/// cache content.
+///  * cache == P: the leaf is emitted without a permission check (the documented reuse);
+///  * otherwise exactly one check decides, and
+///  * afterwards the cache holds P only if P was emitted - a denied or refused leaf is never
+///    remembered as authorised (so "cache == P => P was authorised earlier in this expansion"
+///    is preserved by every step, from the empty cache the expander starts with).
+#[cfg_attr(kani, kani::proof)]
+#[cfg_attr(kani, kani::unwind(5))]
+#[cfg_attr(kani, kani::stub(AccessReq::allow, allow_oracle))]
+#[cfg_attr(not(kani), test)]
+#[cfg_attr(not(kani), ignore)]
+fn c06_q_expand_cache_holds_only_authorised() {
+    let a0 = [Attribute::new(0, Access::RV, Quality::NONE), Attribute::new(1, Access::RV, Quality::NONE)];
+    let cl0 = [Cluster::new(10, 1, 0, &a0, &[], &[], |_, _, _| true, |_, _, _| true, |_, _, _| true)];
+    let dts = [DeviceType { dtype: 0, drev: 0 }];
+    let eps = [Endpoint::new(0, &dts, &cl0)];
+    let node = Node::new(&eps);
+    let accessor = Accessor::new(1, false, AccessorSubjects::new(5), Some(AuthMode::Case), uninit_matter());
+    let paths = [vp(Some(0), Some(10), Some(0))];
+    let ans = any_bool();
+    oracle_reset([ans; 4]);
+    let mut ex = PathExpander::new(&accessor, false, Some(paths.iter().cloned().map(Ok)), |_, _, _| true);
+    let pre: Option<(EndptId, ClusterId, u32)> = if any_bool() { Some((any_u16(), any_u32(), any_u32())) } else { None };
+    ex.last_authorized = pre;
+    let hit = pre == Some((0, 10, 0));
+    let r = ex.next(&node);
+    let emitted = matches!(r, Some(Ok(Ok(_))));
+    unsafe {
+        if hit {
+            vcover!(true);
+            vassert!(emitted && ORACLE_CALLS == 0, "ROLE:repeated-identical-path-reuses-the-authorisation");
+        } else {
+            vcover!(pre.is_some());
+            vassert!(ORACLE_CALLS == 1 && emitted == ans, "ROLE:different-path-is-checked-again");
+        }
+    }
+    let post_is_p = ex.last_authorized == Some((0, 10, 0));
+    vassert!(!post_is_p || emitted, "ROLE:denial-is-never-remembered-as-authorisation");
+    vassert!(!emitted || post_is_p, "ROLE:authorised-leaf-is-remembered-for-an-immediate-repeat");
+}
